@@ -271,7 +271,7 @@ pub fn run(session: &Session) -> i32 {
     if !session.stopped() {
         session.run_enum(&C15, cases);
     }
-    session.run_tapes(&C15, session.tier.of(40_000, 2_000_000), 120, 0);
+    session.run_tapes(&C15, session.tier.of(200_000, 2_000_000), 120, 0);
     session.finish(
         "types from a universe closed under every constructor to depth 3 (quick) / 4 (thorough); each type is realised as 4-5 instances (parsed from texts with union members and struct fields in different orders, rebuilt with `|`), each instance is printed and re-parsed: the whole printed text must parse as one type (checked with the grammar's type rule), to the same structure, `==` to the instance, and all instances must be `==`; types with a default value also go through the run-time type filter `it ? T`, which prints and re-parses T internally. An enumerated family nests unions under one another through every constructor three and four levels deep and sweeps unions of 2-12 members. Non-trivial = a union nested under a function result/parameter, mut, array, tuple or struct field; distinct by type text.",
         false,
